@@ -201,7 +201,8 @@ def path_head(rng):
     if rng.random() < 0.3:
         hs.append((b"Access-Control-Request-Method", rng.choice([b"PUT", b"", b"\xff"])))
     if rng.random() < 0.2:
-        hs.append((b"Accept-Encoding", rng.choice([b"gzip", b"br", b"identity", b"gzip, br"])))
+        hs.append((b"Accept-Encoding", rng.choice([b"gzip", b"br", b"identity", b"gzip, br", b"gzip;q=nan, br", b"br;q=inf, gzip;q=-0", b"gzip;q=1e400",
+                                                   b"gzip;q=.5, br;q=1.", b"gzip;q=0x1p-1", b"zstd;q=-inf, gzip;q=NaN", weighted_list(rng, Q_CODINGS)])))
     if rng.random() < 0.2:
         hs.append((b"If-Modified-Since", rng.choice([b"Fri, 31 Dec 9999 23:59:59 GMT", b"x"])))
     body = b""
@@ -248,14 +249,17 @@ def valid_head(rng, extra=()):
                                        b"bytes=999999-", b"bytes=-5", b"bytes=2-5,7-9", b"bytes=3000-4000", b"bytes=2999-2999", b"bytes=",
                                        b"bytes=+1-+2", b"bytes=1-2\x00"])),
         (b"Accept-Encoding", lambda: rng.choice([b"gzip", b"br, gzip;q=0", b"identity;q=0", b"*;q=0", b"zstd;q=1.0, identity; q=0",
-                                                 b",,,", b";q=", b"gzip;q=;q=", b"q=q=q=,", b"gzip ; q = 0.5", b"\tgzip\t", b""])),
+                                                 b",,,", b";q=", b"gzip;q=;q=", b"q=q=q=,", b"gzip ; q = 0.5", b"\tgzip\t", b""] +
+                                                [weighted_list(rng, Q_CODINGS) for _ in range(12)])),
         (b"If-Modified-Since", lambda: rng.choice([b"Tue, 27 Jul 2021 14:08:15 GMT", b"Tue, 27 Jul 9999 14:08:15 GMT", b"Tue, 27 Jul 0000 14:08:15 GMT",
                                                    b"Xxx, 99 Jul 2021 25:61:61 GMT", b"Tue, 27 Jul -9999 14:08:15 GMT", b"Tue, 27 Jul +99999 14:08:15 GMT",
                                                    b"", b"0", b"Thu, 01 Jan 1970 00:00:00 GMT", b"Fri, 31 Dec 9999 23:59:59 GMT"])),
         (b"Origin", lambda: rng.choice([b"https://icelk.dev", b"http://localhost", b"null", b"localhost", b"http://", b"://", b"http://\xe9",
                                         b"https://icelk.dev:99999", b"a" * 70 + b"://x", b"http://[::1", b"http://a:b:c"])),
         (b"Access-Control-Request-Method", lambda: rng.choice([b"PUT", b"GET", b"", b"\xff", b"put"])),
-        (b"Accept-Language", lambda: rng.choice([b"sv", b"en;q=0.5, sv;q=0.9", b";;;", b"sv;q=NaN", b"sv;q=1e400", b"en;q=-0"] + NASTY)),
+        (b"Accept-Language", lambda: rng.choice([b"sv", b"en;q=0.5, sv;q=0.9", b";;;", b"sv;q=NaN", b"sv;q=1e400", b"en;q=-0"] + NASTY +
+                                                [weighted_list(rng, [b"sv", b"en", b"en-GB", b"de", b"*", b""]) for _ in range(6)] +
+                                                [weighted_list(rng, [b"sv", b"en", b"en-GB", b"de", b"fr", b"x"], k=rng.choice([21, 40]))])),
         (b"User-Agent", lambda: rng.choice([b"Mozilla/5.0 (Mobile) Firefox/1", b"curl"] + NASTY)),
         (b"Cookie", lambda: rng.choice([b"a=b; c=d", b";", b" ; "] + NASTY)),
         (b"Access-Control-Request-Headers", lambda: rng.choice([b"x-a, x-b", b","] + NASTY)),
@@ -283,6 +287,35 @@ NASTY = [b"", b"a", b"\xff", b"\x80", b"\xc3", b"\xc3\xa9", b"\xe2\x82", b";", b
 READ_HEADERS = [b"Accept-Language", b"User-Agent", b"Cookie", b"Accept-Encoding", b"Range", b"If-Modified-Since", b"Origin",
                 b"Access-Control-Request-Method", b"Access-Control-Request-Headers", b"Host", b"Content-Length", b"Connection", b"Upgrade",
                 b"Content-Type", b"Cache-Control", b"Expect", b"Transfer-Encoding", b"Accept"]
+
+
+# weight texts of a list member (accept-encoding, accept-language): what f32::from_str accepts beyond RFC 9110's qvalue — NaN and the
+# infinities in any case and with a sign, signed zeros, exponents beyond the binary32 range, a bare leading or trailing dot, a plus
+# sign, hundreds of digits — and what it refuses (hex floats, digit separators, suffixes, two dots, two signs, an empty text)
+Q_CORE = [b"nan", b"inf", b"-inf", b"-0", b"0", b"1", b".5", b"1e400", b"1e-400", b"+1", b"1.", b"0x1p-1", b"9" * 300]
+Q_TEXTS = Q_CORE + [b"NaN", b"-nan", b"+NAN", b"Infinity", b"+infinity", b"-INF", b"0.0", b"+0", b"-0.0", b"0e0", b"1.0", b"1.000", b"-1", b"5.",
+                    b"0.5", b"0.001", b"-1e400", b"1e-46", b"7e-46", b"1e-45", b"3.4028236e38", b"1e", b"e1", b"1e+", b".", b"+", b"-",
+                    b"0x10", b"1_0", b"1f32", b"0." + b"0" * 300 + b"1", b"1" + b"0" * 40 + b"e-40", b"1e" + b"9" * 30, b"1e-" + b"9" * 30,
+                    b"", b"1,5", b"q", b"nan(0x1)", b"NaN.0", b"--1", b"+-1", b"1.5.5", b"1e1e1", b"1 1", b"\xd9\xa1", b"\xef\xbc\x91", b"\xff",
+                    b"1\t", b"00000000000000000000000000000000000000001", b"0.99999997", b"1.00000006", b"16777217e-7"]
+Q_CODINGS = [b"gzip", b"br", b"zstd", b"identity", b"*", b"deflate", b"GZIP", b"x-gzip", b"", b"gzip", b"br"]
+N_AE_TARGETS = 5             # Model/Panics.v ae_targets
+
+
+def weighted_list(rng, names, k=None):
+    """a list header: k members out of `names`, most with a weight out of Q_TEXTS, odd spacing and parameter syntax"""
+    out = []
+    for _ in range(k if k is not None else rng.choice([1, 2, 2, 2, 3, 4])):
+        m = rng.choice(names)
+        if rng.random() < 0.85:
+            m += rng.choice([b";q=", b";q=", b";q=", b"; q=", b";Q=", b" ;q=", b";q =", b";q=;q=", b";level=1;q=", b";"]) + rng.choice(Q_TEXTS)
+        out.append(m)
+    return rng.choice([b", ", b",", b" , ", b",,"]).join(out)
+
+
+def ae_case(value, target, kind):
+    # a value the request line cannot carry unchanged is the harness's out of domain (it answers (L (N 96)))
+    return Case("c02.ae", xl(xb(value), xn(target)), None, {"kind": kind})
 
 
 def mutate(rng, s, alpha=ALPHA + b"\x00\xff\t\x7f\x80"):
@@ -454,6 +487,40 @@ def generate(rng, tier):
         cases.append(Case("neg.list_header", xb(w), None, {"kind": "ae-words"}, "dev"))
     for _ in range(500 if quick else 30000):
         cases.append(Case("neg.list_header", xb(rand_bytes(rng, rng.randrange(0, 40), ALPHA_AE)), None, {"kind": "ae-random"}, rng.choice(PROFILES)))
+    # ... with the weight texts f32::from_str accepts or refuses beyond a qvalue (nan, inf, 1e400, -0, .5, 1., +1, hex, 300 digits)
+    for w in Q_TEXTS:
+        for tmpl in (b"gzip;q=%s", b"gzip;q=%s, br", b"br, gzip; q=%s", b"gzip;q=%s;q=1"):
+            if w.isascii():
+                cases.append(Case("neg.list_header", xb(tmpl % w), None, {"kind": "ae-weights"}, "dev"))
+    for _ in range(300 if quick else 20000):
+        v = weighted_list(rng, Q_CODINGS)
+        if v.isascii():
+            cases.append(Case("neg.list_header", xb(v), None, {"kind": "ae-weights"}, rng.choice(PROFILES)))
+    # ... and through a live connection to pages that ARE compressed (handler page cached / never cached, file, built-in 404 page)
+    # and one under the 50-byte floor, twice each (the second answer comes from the cache / the memo cells): the coding of the answer
+    # is COMPARED with Negotiate.clone_preferred.  Every pair of the core weights on two codings, each core weight beside a member
+    # without weight in both orders (bounded-exhaustive; the target rotates), then random lists
+    n = 0
+    for w1 in Q_CORE:
+        for w2 in Q_CORE + [None]:
+            for a, b_ in ((b"gzip", b"br"), (b"br", b"gzip")) if w2 is None else ((b"gzip", b"br"),):
+                v = a + b";q=" + w1 + b", " + b_ + (b";q=" + w2 if w2 is not None else b"")
+                for t in (range(4) if not quick else (n % 4,)):
+                    cases.append(ae_case(v, t, "ae-live-pairs"))
+                n += 1
+    for w in Q_TEXTS:
+        if not any(c < 32 or c == 127 for c in w):
+            cases.append(ae_case(b"identity;q=" + w + b", gzip;q=0", n % N_AE_TARGETS, "ae-live-weights"))
+            cases.append(ae_case(b"*;q=" + w + b", zstd;q=0, br;q=" + w, (n + 2) % N_AE_TARGETS, "ae-live-weights"))
+            cases.append(ae_case(b"zstd;q=" + w + b", gzip;q=" + w + b", br;q=" + w, (n + 1) % 4, "ae-live-weights"))
+            n += 1
+    for v in [b"", b"gzip", b"br", b"zstd", b"identity", b"*", b"identity;q=0", b"*;q=0", b"gzip, identity;q=0", b"IDENTITY;q=0, gzip;q=0",
+              b"zstd;q=0, br;q=0, gzip", b",", b";", b";q=nan", b"q=nan", b"\xff", b"gzip\xff, br", b"gzip;q=nan;q=0", b"gzip;q=0;q=nan, br;q=nan"]:
+        for t in range(N_AE_TARGETS):
+            cases.append(ae_case(v, t, "ae-live-fixed"))
+    for _ in range(150 if quick else 6000):
+        v = weighted_list(rng, Q_CODINGS).strip(b" \t")
+        cases.append(ae_case(v if rng.random() < 0.9 else mutate(rng, v, ALPHA_AE + b"nNaAiIfFeE+-x\xff"), rng.randrange(N_AE_TARGETS), "ae-live-random"))
     # If-Modified-Since: the time crate's parser as handle_cache calls it (exploration)
     dates = [b"Tue, 27 Jul 2021 14:08:15 GMT", b"Thu, 01 Jan 1970 00:00:00 GMT", b"Fri, 31 Dec 9999 23:59:59 GMT", b"Sat, 01 Jan 0000 00:00:00 GMT",
              b"Tue, 27 Jul -9999 14:08:15 GMT", b"Tue, 27 Jul +9999 14:08:15 GMT", b"Tue, 27 Jul 99999 14:08:15 GMT", b"Tue, 29 Feb 2021 00:00:00 GMT",
@@ -571,6 +638,33 @@ def generate(rng, tier):
                 data = m + b" " + t + b" HTTP/1.1\r\n" + b"".join(h + b"\r\n" for h in hs) + hn + b": " + v + b"\r\n\r\n"
                 # twice on one connection: the second request meets the cache entry / the limiter's count of the first
                 cases.append(conn_case(data + data, "conn-header-value"))
+    # lists with weights (accept-encoding, accept-language) on every kind of page — compressed, streamed, templated, limited, HEAD,
+    # with a Range —, three requests per connection; the long accept-language lists reach the vary callback of /v
+    AE_PAGES = [b"/h", b"/nc", b"/index.html", b"/nothing-here.html", b"/f.txt", b"/sub/", b"/v", b"/t2.html", b"/n.html", b"/stream/s1000.bin",
+                b"/api/x?a=1", b"/c1.html", b"/a2.html"]
+    def ae_request(v):
+        m = rng.choice([b"GET", b"GET", b"GET", b"HEAD", b"POST", b"OPTIONS"])
+        hs = [b"Host: " + rng.choice([b"localhost", b"localhost", b"localhost", b"b.example", b"lim.example"]),
+              rng.choice([b"Accept-Encoding: ", b"Accept-Encoding: ", b"accept-encoding:", b"Accept-Language: "]) + v]
+        if rng.random() < 0.25:
+            hs.append(b"Range: " + rng.choice([b"bytes=0-9", b"bytes=5-", b"bytes=0-%d" % U64, b"bytes=9-2"]))
+        if rng.random() < 0.15:
+            hs.append(b"If-Modified-Since: " + rng.choice([b"Fri, 31 Dec 9999 23:59:59 GMT", b"Thu, 01 Jan 1970 00:00:00 GMT"]))
+        if rng.random() < 0.15:
+            hs.append(b"Accept-Encoding: " + weighted_list(rng, Q_CODINGS))       # a second header of the same name
+        rng.shuffle(hs)
+        return m + b" " + rng.choice(AE_PAGES) + b" HTTP/1.1\r\n" + b"".join(h + b"\r\n" for h in hs) + b"\r\n"
+    for i in range(120 if quick else 5000):
+        v = weighted_list(rng, Q_CODINGS if i % 4 else [b"sv", b"en", b"en-GB", b"de", b"x"], k=None if i % 8 else rng.choice([21, 33, 64]))
+        reqs = [ae_request(v) for _ in range(3)]
+        # one segment per request, so that each is read on its own
+        cases.append(conn_case(b"".join(reqs), "conn-weights", sched=[len(r) for r in reqs]))
+    for w in Q_CORE:
+        for v in (b"gzip;q=" + w + b", br", b"br;q=" + w + b", gzip;q=" + w):
+            data = b"GET " + rng.choice(AE_PAGES[:5]) + b" HTTP/1.1\r\nHost: localhost\r\nAccept-Encoding: " + v + b"\r\n\r\n"
+            cases.append(conn_case(data, "server-weights", comp="explore.server"))
+    for _ in range(15 if quick else 1500):
+        cases.append(conn_case(ae_request(weighted_list(rng, Q_CODINGS)), "server-weights", comp="explore.server"))
     # drain(): no handler reads the body; the head arrives alone, then the body in pieces, then more than the body (the next request / garbage)
     for t in (b"/f.txt", b"/index.html", b"/nothing", b"/h", b"/stream/s10.bin", b"/t2.html"):
         for cl in (1, 3, 4096, 5000, 70000):
@@ -689,7 +783,7 @@ def has_panic(c, i):
     return i.startswith(PANIC)
 
 
-LIVE = ("explore.conn", "explore.server", "explore.file", "explore.date", "ims.decide", "stream.window", "c02.path", "tmpl.render")
+LIVE = ("explore.conn", "explore.server", "explore.file", "explore.date", "ims.decide", "stream.window", "c02.path", "c02.ae", "tmpl.render")
 TROUBLE = {}          # id -> (component, kind, message) of the live cases the harness could not execute (no verdict)
 
 
@@ -724,10 +818,13 @@ def extra_oracle(c, i):
     bad = has_panic(c, i)
     if bad:
         what = "a panic" + (": " + bytes.fromhex(i[i.index("(B ") + 3:i.index(")", i.index("(B "))]).decode("latin1")
-                            if c.comp.startswith("explore") and "(B " in i else "")
+                            if (c.comp.startswith("explore") or c.comp == "c02.ae") and "(B " in i else "")
         return "%s in %s on this input (profile %s)" % (what, c.comp, c.profile)
     if c.comp in ("explore.conn", "explore.file") and i.startswith("(L (N 94)"):
         return "the connection task did not end within 30 s after the client closed its sending side (two attempts)"
+    if c.comp == "c02.ae" and i.startswith("(L (N 97)"):
+        return ("a well-formed request with this accept-encoding value was not answered: "
+                + bytes.fromhex(i[i.index("(B ") + 3:i.index(")", i.index("(B "))]).decode("latin1"))
     if c.comp == "explore.server" and i.startswith("(L (N 95)"):
         return "shutdown::Manager::get_connecions() did not return to its idle value after the connection had gone: " + i
     if c.comp in ("explore.date", "ims.decide") and i.startswith("(L (N 92)"):
